@@ -151,3 +151,11 @@ package prelude
 //@   ensures len(s) == 0 ==> result1 == 0
 //@   ensures len(s) > 0 ==> 1 <= result1 && result1 <= 4 && result1 <= len(s)
 //@   ensures 0 <= result0 && (result0 < 128 && result1 > 0 ==> result1 == 1)
+
+//@ package regexp
+
+// Matching is a function of the compiled regex object and the text (a compiled regex is immutable).
+//@ func (*Regexp).MatchString
+//@   trusted
+//@   pure
+//@   requires re != nil
